@@ -162,12 +162,46 @@ def observe(p, role, eout, bytes_before, sent_before, peak, steps, tls13_protect
             "bytesIn": max(0, len(inpipe.dlv_log) - bytes_before), "peakAlloc": int(peak), "steps": int(steps)}
 
 
-def run_case(job):
+class CaseTimeout(BaseException):
+    pass
+
+
+def _alarm(signum, frame):
+    raise CaseTimeout()
+
+
+CASE_SECONDS = 90
+
+
+def _hang(job):
+    tag = job.get("tag")
+    return {"trace": [{"ev": "CFG", "tag": tag},
+                      {"ev": "OBS", "raised": "Hang", "exc": "-", "msg": "no return and no yield within %d s" % CASE_SECONDS,
+                       "alertOnWire": False, "alertLevel": 0, "closed": False, "resumable": False, "bytesIn": 0,
+                       "peakAlloc": 0, "steps": 0, "applied": True}], "tag": tag, "nmsgs": 0, "raws": []}
+
+
+def _guarded(fn, job):
+    """one case under a wall-clock guard: a call that neither returns nor yields is the `Hang` outcome"""
+    import signal
+    import tracemalloc
+    signal.signal(signal.SIGALRM, _alarm)
+    signal.alarm(CASE_SECONDS)
     try:
-        return _run_case(job)
+        return fn(job)
+    except CaseTimeout:
+        return _hang(job)
     except BaseException:
         import traceback
         return {"crash": traceback.format_exc(), "tag": job.get("tag")}
+    finally:
+        signal.alarm(0)
+        if tracemalloc.is_tracing():
+            tracemalloc.stop()
+
+
+def run_case(job):
+    return _guarded(_run_case, job)
 
 
 def _finish(p, role, te, tp, t0_bytes, t0_sent, mem):
@@ -225,11 +259,7 @@ def _run_case(job):
 
 # ---------------------------------------------------------------- raw record level cases (after the handshake)
 def raw_case(job):
-    try:
-        return _raw_case(job)
-    except BaseException:
-        import traceback
-        return {"crash": traceback.format_exc(), "tag": job.get("tag")}
+    return _guarded(_raw_case, job)
 
 
 def _raw_case(job):
